@@ -111,6 +111,12 @@ def gen_trace(seed, world, tier):
     call = {"k": "fn", "fn": fn, "args": [A], "kwargs": kw, "client": 2, "tags": tags}
     if R.random() < 0.35:
         call["fault"] = {"jitter": R.randrange(2 ** 31)}
+    if R.random() < 0.15 and kw["max_iterations"] > 2:
+        # the same matrix was already asked about with a tiny budget (a quick first look): what
+        # that call computed must not be served again to the call with the real budget
+        pk = dict(kw, max_iterations=R.choice([1, 2]))
+        steps.append({"k": "fn", "fn": fn, "args": [A], "kwargs": pk, "client": 2,
+                      "tags": dict(tags, budget=pk["max_iterations"], primer=True)})
     steps.append(call)
     if "fault" not in call and R.random() < 0.3:
         steps.append({"k": "repeat", "of": len(steps) - 1, "client": 0})
